@@ -569,6 +569,85 @@ func (w *SessWorld) SendOps(s *SS, specs []gen.OpSpec, stamp *spb.Uint128) []str
 	return probs
 }
 
+// SendOpsMixed sends ONE request whose operations carry individual stamps (the
+// election check is per operation, not per request). Only stamps that are judged
+// in-band (applied, or FAILED without ending the RPC) are mixed: if any of them would
+// end the RPC, what happens to the operations behind it in the same request is not
+// determined by the property, and the whole batch falls back to the first stamp.
+func (w *SessWorld) SendOpsMixed(s *SS, specs []gen.OpSpec, stamps []*spb.Uint128) []string {
+	uniform := true
+	verdicts := make([]OpVerdict, len(specs))
+	whys := make([]string, len(specs))
+	for i, st := range stamps {
+		v, _, _, why := w.ClassifyOp(s, st)
+		verdicts[i], whys[i] = v, why
+		if v == OpEndsRPC {
+			return w.SendOps(s, specs, stamps[0])
+		}
+		if !idEq(st, stamps[0]) {
+			uniform = false
+		}
+	}
+	if uniform {
+		return w.SendOps(s, specs, stamps[0])
+	}
+	var probs []string
+	ops := make([]*spb.AFTOperation, len(specs))
+	var txt []string
+	for i := range specs {
+		specs[i].Op.ElectionId = stamps[i]
+		ops[i] = specs[i].Op
+		s.Sent[specs[i].Op.GetId()] = true
+		txt = append(txt, fmt.Sprintf("%s stamped %s", specs[i].String(), IDStr(stamps[i])))
+	}
+	s.GotMsg = true
+	res := s.S.Ops(ops, s.Last)
+	w.logf("%s sends one request with mixed stamps [%s] -> results=%s rpcErr=%v", s.Name, strings.Join(txt, "; "), resultsStr(res.Results), errStr(res.RPCErr))
+	if res.RPCErr == drv.ErrWatchdog {
+		return []string{"INCONCLUSIVE|operations on " + s.Name + ": no barrier answer within the watchdog"}
+	}
+	if res.RPCErr != nil {
+		s.Open = false
+		return append(probs, fmt.Sprintf("rpc-ended-on-in-band-operations|%s: every operation of the request is to be applied or FAILED in-band, but the RPC ended: %v", s.Name, res.RPCErr))
+	}
+	if res.Unanswered > 0 {
+		probs = append(probs, fmt.Sprintf("operation-without-response|%s: %d operations produced no ModifyResponse although the RPC stayed up", s.Name, res.Unanswered))
+	}
+	if len(res.Other) > 0 {
+		probs = append(probs, fmt.Sprintf("unsolicited-response|%s received non-result responses while operating: %v", s.Name, res.Other))
+	}
+	for _, r := range res.Results {
+		if !s.Sent[r.GetId()] {
+			probs = append(probs, fmt.Sprintf("result-for-operation-not-sent-on-this-stream|%s received %v for operation %d which it never sent", s.Name, r.GetStatus(), r.GetId()))
+		}
+		s.Terminal[r.GetId()] = append(s.Terminal[r.GetId()], r.GetStatus())
+	}
+	if len(res.PerResponse) != len(specs) {
+		return append(probs, fmt.Sprintf("response-count-mismatch|%s sent %d operations and received %d responses before the barrier: %s", s.Name, len(specs), len(res.PerResponse), resultsStr(res.Results)))
+	}
+	for i, sp := range specs {
+		if verdicts[i] != OpApply {
+			rs := res.PerResponse[i]
+			if len(rs) != 1 || rs[0].GetId() != sp.Op.GetId() || rs[0].GetStatus() != spb.AFTResult_FAILED {
+				sig := "unauthorised-operation-acknowledged:" + strings.ReplaceAll(whys[i], " ", "-")
+				probs = append(probs, fmt.Sprintf("%s|%s: %s (operation %d of a request whose other operations are correctly stamped) answered %s although %s", sig, s.Name, sp, i+1, resultsStr(rs), whys[i]))
+			}
+			continue
+		}
+		oks, fails := w.split(s, res.PerResponse[i], &probs)
+		if _, known := w.X.M.NI[sp.NI]; !known || sp.NI == "" {
+			if len(oks) != 0 || len(fails) != 1 || fails[0] != sp.Op.GetId() {
+				probs = append(probs, fmt.Sprintf("unknown-ni-not-failed-once|%s: %s answered oks=%v fails=%v", s.Name, sp, oks, fails))
+			}
+			continue
+		}
+		r := w.X.M.Step(sp, oks, fails)
+		probs = append(probs, r.Problems...)
+		w.LastCascade += r.Cascade
+	}
+	return probs
+}
+
 // split turns the results of one response into the ids answered programmed (in
 // order) and failed, checking RIB-before-FIB and multiplicities on the way.
 func (w *SessWorld) split(s *SS, rs []*spb.AFTResult, probs *[]string) (oks, fails []uint64) {
